@@ -30,7 +30,7 @@ ASSUMPTIONS = [
     "depth_m = depth_ft x 0.3048 is compared within 4 ulp",
 ]
 REQUIRED = ["json_exports", "json_integer_header_values", "json_text_curves", "json_nan_header_values", "json_object_curves_with_nan", "json_objects_with_infinities_and_float32", "json_infinite_values", "csv_exports", "csv_records_checked",
-            "excel_exports", "excel_text_curves", "df_roundtrips", "df_roundtrips_with_stale_suffixes", "exports_repeated_after_in_place_edits", "depth_unit_cases", "depth_conflict_cases", "depth_unrecognised_cases", "depth_cases_mnemonic_case_lower", "depth_cases_mnemonic_case_preserve"]
+            "excel_exports", "excel_text_curves", "df_roundtrips", "df_of_empty_object", "df_roundtrips_with_stale_suffixes", "exports_repeated_after_in_place_edits", "depth_unit_cases", "depth_conflict_cases", "depth_unrecognised_cases", "depth_cases_mnemonic_case_lower", "depth_cases_mnemonic_case_preserve"]
 SOFT_DEADLINE = {"quick": 100, "thorough": 1500}
 LEVEL_TEXT = "Exploration with independent readers of every export format as oracles over generated and corpus objects."
 LEVEL_NOTE = "Trusts json/csv/openpyxl/pandas as readers; export options outside the listed sets are not covered."
@@ -49,6 +49,8 @@ def grid(tier):
     yield {"kind": "json", "seed": 0, "empty": True}
     yield {"kind": "excel", "seed": 0, "empty": True}
     yield {"kind": "csv", "seed": 0, "empty": True, "csvopt": 0}
+    yield {"kind": "csv", "seed": 0, "empty": True, "csvopt": 3}
+    yield {"kind": "df", "seed": 0, "empty": True}
     # depth units
     import random
     lasio_units = {"FT": ("FT", "F", "FEET", "FOOT"), "M": ("M", "METER", "METERS", "METRE", "METRES", "метер", "м"), ".1IN": (".1IN", "0.1IN", ".1INCH", "0.1INCH")}
@@ -272,7 +274,17 @@ def run_csv(case, ctx, las):
     loc = rng.choice(["line", "line", "[]", "()"])
     kw = dict(rng.choice(CSV_KW))
     if case.get("empty") or n == 0:
+        # "empty files": no curves, hence no depth steps - to_csv() has nothing to emit, and must not fail
         ctx.count("csv_exports_empty_object")
+        buf = io.StringIO()
+        try:
+            las.to_csv(buf, mnemonics=mn if isinstance(mn, bool) else True, units=un if isinstance(un, bool) else True, units_loc=loc, **kw)
+        except Exception as e:
+            V("csv-raised-on-empty-object:%s" % type(e).__name__, "to_csv() of a LASFile without curves raised %r" % (e,), {"case": case})
+            return
+        rows = [r for r in csv.reader(io.StringIO(buf.getvalue(), newline="")) if any(x.strip() for x in r)]
+        if rows:
+            V("csv-records-for-empty-object", "to_csv() of a LASFile without curves wrote %r" % (rows[:3],), {"case": case})
         return
     lens = {len(c.data) for c in las.curves}
     if len(lens) != 1:
@@ -423,7 +435,17 @@ def run_df(case, ctx, las):
 def _run_df(case, ctx, las):
     import copy
     V = ctx.violation
-    if len(las.curves) == 0 or len({len(c.data) for c in las.curves}) != 1:
+    if len(las.curves) == 0:
+        ctx.count("df_of_empty_object")
+        try:
+            df = las.df()
+        except Exception as e:
+            V("df-raised-on-empty-object:%s" % type(e).__name__, "df() of a LASFile without curves raised %r" % (e,), {"case": case})
+            return
+        if df.shape[0] != 0 or df.shape[1] != 0:
+            V("df-not-empty-for-empty-object", "df() of a LASFile without curves has shape %r" % (df.shape,), {"case": case})
+        return
+    if len({len(c.data) for c in las.curves}) != 1:
         return
     keys = las.keys()
     if len(set(keys)) != len(keys):
